@@ -54,3 +54,4 @@ Print Assumptions Known_C19_quadratic_superlinear.
 Print Assumptions C19_linear_otherwise.
 Print Assumptions C19_csv_simple_roundtrip.
 Print Assumptions C19_ann_offset_total.
+Print Assumptions C19_dataset_merge_spec.
